@@ -292,3 +292,40 @@ Definition history_obs (h : heap) (ms : list (Z * nat)) (calls : list (option pd
   | Some (idss, h') => Some (map (map (fun a => map enc_val (obj h' a))) idss,
                              map (map enc_val) (firstn (List.length h) h'))
   end.
+
+(* ---------------------------------------------------------------- several runs in one process *)
+(* Error objects have process-wide unique ids.  A run of parallel_safe creates its own Reporter
+   (`reporter = self.Reporter()`, whose __init__ gives it its own flag and its own list); the member threads
+   report their errors into it; the caller then raises chained from errors[0] iff the flag is set. *)
+Definition reporter := (bool * list nat)%type.
+Definition fresh_reporter : reporter := (false, []).
+Definition report_error (r : reporter) (e : nat) : reporter := (true, snd r ++ [e]).
+Definition run_with (r0 : reporter) (errs : list nat) : option nat :=
+  let r := fold_left report_error errs r0 in
+  if fst r then hd_error (snd r) else None.
+
+Inductive rkind := KSafe | KPar | KSeq.     (* parallel_safe / open_links; parallel; sequential *)
+(* the error object the caller gets (as __cause__ for KSafe, as the exception itself for KSeq), None = no exception;
+   errs = the error objects raised by the actions of THIS run, in reporting (KSeq: member) order *)
+Definition proc_run (r0 : reporter) (k : rkind) (errs : list nat) : option nat :=
+  match k with
+  | KSafe => run_with r0 errs
+  | KPar => None
+  | KSeq => hd_error errs
+  end.
+
+Definition process_fresh (runs : list (rkind * list nat)) : list (option nat) :=
+  map (fun r => proc_run fresh_reporter (fst r) (snd r)) runs.
+
+(* what would happen if the error list were one object shared by all Reporters (flag still per run) *)
+Fixpoint process_shared (shared : list nat) (runs : list (rkind * list nat)) : list (option nat) :=
+  match runs with
+  | [] => []
+  | (k, errs) :: t =>
+      proc_run (false, shared) k errs ::
+      process_shared (match k with KSeq => shared | _ => shared ++ errs end) t
+  end.
+
+(* the transition system started with a reporter list that already holds stale errors *)
+Definition init_shared (stale : list nat) : st :=
+  {| spawned := 0; joined := 0; ts := fun _ => TNot; flag := false; errors := stale; calls := []; result := None |}.
